@@ -58,8 +58,6 @@ func NewReferenceByIdError(localType, localId, remoteType, remoteId, remoteField
 	return NewReferenceByIdsError(localType, localId, remoteType, []string{remoteId}, remoteField)
 }
 
-var testErrorReferenceExists = &ReferenceExistsError{}
-
 // ReferenceExistsError is an error returned when an operation cannot be completed due to a referential constraint.
 // Typically, when deleting an entity (called local) that is referenced by another entity (called the remote)
 type ReferenceExistsError struct {
@@ -71,14 +69,13 @@ type ReferenceExistsError struct {
 }
 
 func IsReferenceExistsError(err error) bool {
+	testErrorReferenceExists := &ReferenceExistsError{}
 	return errors.As(err, &testErrorReferenceExists)
 }
 
 func (err *ReferenceExistsError) Error() string {
 	return fmt.Sprintf("cannot delete %v with id %v is referenced by %v with id(s) %v, field %v", err.LocalType, err.LocalId, err.RemoteType, err.RemoteIds, err.RemoteField)
 }
-
-var testUniqueIndexDuplicateError = &UniqueIndexDuplicateError{}
 
 // UniqueIndexDuplicateError is an error that is returned when a unique index is violated due to duplicate values
 type UniqueIndexDuplicateError struct {
@@ -88,6 +85,7 @@ type UniqueIndexDuplicateError struct {
 }
 
 func IsUniqueIndexDuplicateError(err error) bool {
+	testUniqueIndexDuplicateError := &UniqueIndexDuplicateError{}
 	return errors.As(err, &testUniqueIndexDuplicateError)
 }
 
